@@ -521,3 +521,152 @@ Proof.
   specialize (SB Hin).
   pose proof (matmul_width_bound (Z.of_nat K) (bits a) (bits b) ltac:(lia) Ha Hb Hs). lia.
 Qed.
+
+(* ------------------------------------------------------------------ transpose *)
+Theorem transpose_correct r c a i j : wfx r c a -> mrange a -> bits a <= maxb a ->
+  (i < c)%nat -> (j < r)%nat ->
+  el (mtranspose a) i j = el a j i /\ bits (mtranspose a) = bits a /\ wfx c r (mtranspose a).
+Proof.
+  intros W R Hm Hi Hj. pose proof W as [_ [Hr Hc]]. unfold mtranspose.
+  rewrite (wfx_rows r c a W), (wfx_cols r c a W). rewrite el_mnew by assumption.
+  rewrite capb_id by exact Hm. split; [apply trunc_id, R|]. split; [cbn [mnew bits]; apply capb_id; exact Hm|].
+  apply wfx_mnew; assumption.
+Qed.
+
+Lemma get_mk_out r c f i j : ~ ((i < r)%nat /\ (j < c)%nat) -> get (mk r c f) i j = 0.
+Proof.
+  intros H. unfold get. destruct (lt_dec i r) as [Hi|Hi].
+  - unfold mk. rewrite (nth_map_seq (fun i => map (fun j => f i j) (seq 0 c))) by exact Hi.
+    apply nth_overflow. rewrite map_length, seq_length. lia.
+  - rewrite (nth_overflow (mk r c f)) by (rewrite (proj1 (wfm_mk r c f)); lia). destruct j; reflexivity.
+Qed.
+
+Lemma mrange_mnew r c b mb f : 0 <= capb b mb -> mrange (mnew r c b mb f).
+Proof.
+  intros Hb i j. unfold el, mnew. cbn [dat bits].
+  destruct (lt_dec i r) as [Hi|Hi]; [destruct (lt_dec j c) as [Hj|Hj]|].
+  - rewrite get_mk by assumption. apply trunc_range; exact Hb.
+  - rewrite get_mk_out by lia. split; [lia|apply pow2_pos; exact Hb].
+  - rewrite get_mk_out by lia. split; [lia|apply pow2_pos; exact Hb].
+Qed.
+
+Lemma mrange_transpose r c a : wfx r c a -> mrange a -> bits a <= maxb a -> mrange (mtranspose a).
+Proof.
+  intros W R Hm.
+  assert (Hb : 0 <= bits a) by (apply (inrange_nonneg_w (el a 0 0)); apply R).
+  unfold mtranspose. apply mrange_mnew. rewrite capb_id by exact Hm. exact Hb.
+Qed.
+
+Theorem transpose_involutive r c a : wfx r c a -> mrange a -> bits a <= maxb a ->
+  dat (mtranspose (mtranspose a)) = dat a.
+Proof.
+  intros W R Hm. pose proof W as [Wm [Hr Hc]].
+  assert (Wt : wfx c r (mtranspose a)) by (apply (transpose_correct r c a 0 0); assumption).
+  assert (Rt : mrange (mtranspose a)) by (apply (mrange_transpose r c); assumption).
+  assert (Bt : bits (mtranspose a) = bits a) by (apply (transpose_correct r c a 0 0); assumption).
+  assert (Mt : maxb (mtranspose a) = maxb a) by reflexivity.
+  apply (mat_ext r c); [|exact Wm|].
+  - apply (transpose_correct c r (mtranspose a) 0 0); try assumption. lia.
+  - intros i j Hi Hj.
+    destruct (transpose_correct c r (mtranspose a) i j Wt Rt ltac:(lia) Hi Hj) as [E _].
+    unfold el in E. rewrite E.
+    destruct (transpose_correct r c a j i W R Hm Hj Hi) as [E2 _]. exact E2.
+Qed.
+
+(* ------------------------------------------------------------------ reshape index maps *)
+(* C order: ix |-> (ix / c, ix mod c) and (i, j) |-> i*c + j are mutually inverse between
+   [0, r*c) and [0,r) x [0,c) *)
+Theorem reshape_C_bijection r c : (0 < c)%nat ->
+  (forall ix, (ix < r * c)%nat ->
+     (fst (src_C r c ix) < r)%nat /\ (snd (src_C r c ix) < c)%nat /\
+     ix_C r c (fst (src_C r c ix)) (snd (src_C r c ix)) = ix) /\
+  (forall i j, (i < r)%nat -> (j < c)%nat ->
+     (ix_C r c i j < r * c)%nat /\ src_C r c (ix_C r c i j) = (i, j)).
+Proof.
+  intros Hc. split.
+  - intros ix H. unfold src_C, ix_C. cbn [fst snd]. destruct (divmod_lt r c ix H) as [H1 [H2 H3]].
+    repeat split; try assumption. lia.
+  - intros i j Hi Hj. unfold src_C, ix_C. split; [nia|]. f_equal.
+    + rewrite Nat.div_add_l by lia. rewrite Nat.div_small by exact Hj. lia.
+    + rewrite Nat.add_comm, Nat.mod_add by lia. apply Nat.mod_small; exact Hj.
+Qed.
+
+(* F order: ix |-> (ix mod r, ix / r) and (i, j) |-> j*r + i *)
+Theorem reshape_F_bijection r c : (0 < r)%nat ->
+  (forall ix, (ix < r * c)%nat ->
+     (fst (src_F r c ix) < r)%nat /\ (snd (src_F r c ix) < c)%nat /\
+     ix_F r c (fst (src_F r c ix)) (snd (src_F r c ix)) = ix) /\
+  (forall i j, (i < r)%nat -> (j < c)%nat ->
+     (ix_F r c i j < r * c)%nat /\ src_F r c (ix_F r c i j) = (i, j)).
+Proof.
+  intros Hr. split.
+  - intros ix H. unfold src_F, ix_F. cbn [fst snd].
+    destruct (divmod_lt c r ix ltac:(lia)) as [H1 [H2 H3]]. repeat split; try assumption. lia.
+  - intros i j Hi Hj. unfold src_F, ix_F. split; [nia|]. f_equal.
+    + rewrite Nat.add_comm, Nat.mod_add by lia. apply Nat.mod_small; exact Hi.
+    + rewrite Nat.div_add_l by lia. rewrite Nat.div_small by exact Hi. lia.
+Qed.
+
+Lemma resolve_shape_pos count nr nc : 0 < nr -> 0 < nc -> nr * nc = count ->
+  resolve_shape count nr nc = Some (nr, nc).
+Proof.
+  intros Hr Hc E. unfold resolve_shape.
+  replace (nr =? -1) with false by lia. replace (nc =? -1) with false by lia. cbn [andb].
+  replace ((nr * nc =? count) && (0 <? nr) && (0 <? nc)) with true by lia. reflexivity.
+Qed.
+
+(* a -1 dimension is inferred as count / other *)
+Lemma resolve_shape_infer_rows count nc : 0 < nc -> (count / nc) * nc = count -> 0 < count ->
+  resolve_shape count (-1) nc = Some (count / nc, nc).
+Proof.
+  intros Hc E H0. unfold resolve_shape.
+  replace (nc =? -1) with false by lia. cbn [Z.eqb andb Pos.eqb].
+  assert (0 < count / nc) by nia.
+  replace ((count / nc * nc =? count) && (0 <? count / nc) && (0 <? nc)) with true by lia. reflexivity.
+Qed.
+Lemma resolve_shape_infer_cols count nr : 0 < nr -> nr * (count / nr) = count -> 0 < count ->
+  resolve_shape count nr (-1) = Some (nr, count / nr).
+Proof.
+  intros Hr E H0. unfold resolve_shape.
+  replace (nr =? -1) with false by lia. cbn [Z.eqb andb Pos.eqb].
+  assert (0 < count / nr) by nia.
+  replace ((nr * (count / nr) =? count) && (0 <? nr) && (0 <? count / nr)) with true by lia. reflexivity.
+Qed.
+
+(* reshape in C order keeps the row-major reading; in F order it keeps the column-major reading
+   (= the row-major reading of the transpose) *)
+Theorem reshape_C_correct r c a r' c' i j : wfx r c a -> mrange a -> bits a <= maxb a ->
+  (0 < r')%nat -> (0 < c')%nat -> (r' * c' = r * c)%nat -> (i < r')%nat -> (j < c')%nat ->
+  exists res, mreshape a (Z.of_nat r') (Z.of_nat c') false = Some res /\ wfx r' c' res /\
+    bits res = bits a /\ el res i j = nth (i * c' + j) (flat (dat a)) 0.
+Proof.
+  intros W R Hm Hr' Hc' E Hi Hj. pose proof W as [Wm [Hr Hc]].
+  unfold mreshape. rewrite (wfx_rows r c a W), (wfx_cols r c a W).
+  rewrite resolve_shape_pos by nia. rewrite !Nat2Z.id. eexists. split; [reflexivity|].
+  split; [apply wfx_mnew; assumption|]. split; [cbn [mnew bits]; apply capb_id; exact Hm|].
+  rewrite el_mnew by assumption. rewrite capb_id by exact Hm.
+  assert (Hk : (ix_C r' c' i j < r * c)%nat) by (unfold ix_C; nia).
+  destruct (reshape_C_bijection r c Hc) as [B _]. destruct (B _ Hk) as [H1 [H2 H3]].
+  destruct (src_C r c (ix_C r' c' i j)) as [sr sc] eqn:Es. cbn [fst snd] in *.
+  rewrite trunc_id by apply R. unfold el. rewrite <- (nth_flat r c) by assumption.
+  unfold ix_C in H3. rewrite H3. reflexivity.
+Qed.
+
+Theorem reshape_F_correct r c a r' c' i j : wfx r c a -> mrange a -> bits a <= maxb a ->
+  (0 < r')%nat -> (0 < c')%nat -> (r' * c' = r * c)%nat -> (i < r')%nat -> (j < c')%nat ->
+  exists res, mreshape a (Z.of_nat r') (Z.of_nat c') true = Some res /\ wfx r' c' res /\
+    bits res = bits a /\ el res i j = nth (j * r' + i) (flat (dat (mtranspose a))) 0.
+Proof.
+  intros W R Hm Hr' Hc' E Hi Hj. pose proof W as [Wm [Hr Hc]].
+  unfold mreshape. rewrite (wfx_rows r c a W), (wfx_cols r c a W).
+  rewrite resolve_shape_pos by nia. rewrite !Nat2Z.id. eexists. split; [reflexivity|].
+  split; [apply wfx_mnew; assumption|]. split; [cbn [mnew bits]; apply capb_id; exact Hm|].
+  rewrite el_mnew by assumption. rewrite capb_id by exact Hm.
+  assert (Hk : (ix_F r' c' i j < r * c)%nat) by (unfold ix_F; nia).
+  destruct (reshape_F_bijection r c Hr) as [B _]. destruct (B _ Hk) as [H1 [H2 H3]].
+  destruct (src_F r c (ix_F r' c' i j)) as [sr sc] eqn:Es. cbn [fst snd] in *.
+  rewrite trunc_id by apply R.
+  destruct (transpose_correct r c a sc sr W R Hm H2 H1) as [Et [_ [Wt _]]].
+  rewrite <- Et. unfold el at 2. rewrite <- (nth_flat c r) by assumption.
+  unfold ix_F in H3. rewrite H3. reflexivity.
+Qed.
